@@ -349,7 +349,7 @@ func runC04(c *Ctx) {
 				return ok && isLoadOf(mu.Map, r.FInflight)
 			}
 			blocks := armBlocks(arm)
-			wv := reachFromBlockF(arm.Body, func(in ssa.Instruction) bool { return isRegister(in) && blocks[in.Block()] }, func(in ssa.Instruction) bool { return !blocks[in.Block()] }, c.assumeID(true))
+			wv := reachFromBlockF(arm.Body, func(in ssa.Instruction) bool { return isRegister(in) && inRegion(blocks, in) }, func(in ssa.Instruction) bool { return !inRegion(blocks, in) }, c.assumeID(true))
 			c.check(wv == nil, "R04.4", construct, c.ipos(arm.Body.Instrs[0]), "registration unreachable when the id is nil", "an id-less request can be registered in the in-flight table (under the nil key): its completion is delivered twice or to another notification")
 		}
 		// (iii) server side
